@@ -79,6 +79,6 @@ package dkg
 //@ func LoadBLSKeyringFromBytes
 //@   safety C18
 //@   nosafety
-//@   pure
+//@   modifies *
 //@   modifies $bufc
 //@   ensures[C18.keyring.nonnil] result1 == nil ==> result0 != nil
